@@ -271,7 +271,7 @@ func (w *W) SetS(op, mode, s string) {
 }
 
 // Eval counts one evaluation.
-func (w *W) Eval() { w.evals++; w.prog.Add(1) }
+func (w *W) Eval()         { w.evals++; w.prog.Add(1) }
 func (w *W) EvalN(n int64) { w.evals += n; w.prog.Add(1) }
 
 // Cell counts an evaluation into an oracle-side cell; returns true the first time this worker sees it.
